@@ -127,6 +127,20 @@ class C08:
     stub_components = ["multiprocessing spawn context: Process, Queue, Event, Pipe, Lock, Semaphore, RawArray",
                        "threading.Thread / Lock as seen by coba.pipes.lines", "wrapped user filter (harness)"]
 
+    def extra_coverage(self, tier, agg):
+        """Thorough tier: also run the workload on REAL spawned processes and apply the same oracle (stub fidelity)."""
+        if tier != "thorough":
+            return {}
+        import os, re, subprocess
+        try:
+            p = subprocess.run([os.path.join(VERIF, "tools", "stub_fidelity.py"), "24"], capture_output=True, text=True, timeout=900)
+            m = re.search(r"stub fidelity: (\d+)/(\d+) real executions accepted", p.stdout)
+            return {"stub_fidelity_real_process_runs": int(m.group(2)) if m else 0,
+                    "stub_fidelity_accepted_by_oracle": int(m.group(1)) if m else 0,
+                    "stub_fidelity_note": "real spawned processes, uncontrolled schedule; never a source of a VIOLATION line"}
+        except Exception as e:
+            return {"stub_fidelity_error": repr(e)}
+
     # ------------------------------------------------------------------ generation
     def gen(self, rng, tier, index):
         n_items = weighted(rng, [(0, 1), (1, 2), (2, 3), (3, 3), (4, 3), (5, 3), (6, 2), (8, 2), (10, 1), (14, 1)])
